@@ -66,12 +66,15 @@ pub fn case_input(space: &Space, fixtures: &[(String, Vec<u8>)], seed: u64, idx:
 	}
 }
 
+/// number of boundary-straddling cases (quick, thorough)
+const N_BOUNDARY: (usize, usize) = (192, 1536);
+
 impl Monitor for C01 {
 	fn id(&self) -> &'static str {
 		"C01"
 	}
 	fn rule(&self) -> String {
-		"cases = repository fixtures + deterministic sweep (every (major,minor) 0.1..3.16 with a base shape; every distinct layout x shape matrix of port sets/ICs/presence patterns/rollbacks/items/gecko/end/metadata) + VERIF_SEED-driven random well-formed specs; every payload field carries random bits (1/8 special patterns: NaN payloads, inf, sign bit, all ones). A case is non-trivial when the reference model re-parses the generated file to the generator's ground truth; distinct = distinct coverage classes (layout, regime x port mask, regime x absence x rollback x items x frame-count class, gecko x ends x metadata). A family of concurrent cases runs 6 threads x 12 round trips (both formats, hash on/off) at once in one process and requires every thread to get the single-threaded result. Every 4th case is preceded by a (failing) read of a truncated copy on the same thread. Oracle: write(read(x)) == x byte for byte, into a plain buffer and into a sink that accepts only 1/3/7/100/4096 bytes per call; a sink that fails after k bytes must make the write return Err.".into()
+		"cases = repository fixtures + deterministic sweep (every (major,minor) 0.1..3.16 with a base shape; every distinct layout x shape matrix of port sets/ICs/presence patterns/rollbacks/items/gecko/end/metadata) + VERIF_SEED-driven random well-formed specs; every payload field carries random bits (1/8 special patterns: NaN payloads, inf, sign bit, all ones). A case is non-trivial when the reference model re-parses the generated file to the generator's ground truth; distinct = distinct coverage classes (layout, regime x port mask, regime x absence x rollback x items x frame-count class, gecko x ends x metadata). A family of boundary cases places the first Game End, the second Game End of a doubled end, or the start of the metadata 0..7 bytes before a multiple of 4/8/64 KiB of file offset (frame and item counts solved for), where a reader-side buffer of that size would be refilled. A family of concurrent cases runs 6 threads x 12 round trips (both formats, hash on/off) at once in one process and requires every thread to get the single-threaded result. Every 4th case is preceded by a (failing) read of a truncated copy on the same thread. Oracle: write(read(x)) == x byte for byte, into a plain buffer and into a sink that accepts only 1/3/7/100/4096 bytes per call; a sink that fails after k bytes must make the write return Err.".into()
 	}
 	fn assumptions(&self) -> Vec<String> {
 		vec!["well-formedness is defined by the harness's hand-transcribed spec tables (spec.rs), pinned against the payload tables of the repository's real fixtures".into(), "frame field contents are sampled, not enumerated".into()]
@@ -80,7 +83,7 @@ impl Monitor for C01 {
 		vec![Lane { kind: LaneKind::Miri, name: "roundtrip", shards: (0..25).collect(), nshards: 25 }]
 	}
 	fn n_cases(&self, ctx: &Ctx) -> usize {
-		self.fixtures.len() + self.space(ctx.tier).len() + ctx.tier.pick(24, 400)
+		self.fixtures.len() + self.space(ctx.tier).len() + ctx.tier.pick(N_BOUNDARY.0, N_BOUNDARY.1) + ctx.tier.pick(24, 400)
 	}
 	fn min_classes(&self, tier: Tier) -> usize {
 		tier.pick(60, 100)
@@ -88,10 +91,17 @@ impl Monitor for C01 {
 	fn run(&self, ctx: &Ctx, idx: usize) -> CaseOut {
 		let mut out = CaseOut::default();
 		let n_main = self.fixtures.len() + self.space(ctx.tier).len();
-		if idx >= n_main {
-			return self.concurrent_case(ctx, idx - n_main);
+		let n_boundary = ctx.tier.pick(N_BOUNDARY.0, N_BOUNDARY.1);
+		if idx >= n_main + n_boundary {
+			return self.concurrent_case(ctx, idx - n_main - n_boundary);
 		}
-		let Some((desc, bytes, truth)) = case_input(self.space(ctx.tier), &self.fixtures, ctx.seed, idx, &mut out) else { return out };
+		let input = if idx >= n_main {
+			// structural elements straddling multiples of 4/8/64 KiB of file offset
+			common::boundary_case(idx - n_main, ctx.seed, &mut out)
+		} else {
+			case_input(self.space(ctx.tier), &self.fixtures, ctx.seed, idx, &mut out)
+		};
+		let Some((desc, bytes, truth)) = input else { return out };
 		out.evals = 1;
 		out.count("bytes_in", bytes.len() as u64);
 		out.count("frames", truth.frames.len() as u64);
